@@ -15,15 +15,14 @@ Layers:
 import itertools, os, shutil, subprocess, tempfile, json
 import common as C
 
-EXTRACT = ["C15"]
+EXTRACT = ["C15", "C14"]
 BINS = ["c15"]
 NEEDS_CICADA = True
 ALLOWED_AXIOMS = []
-PINNED = ["C15_args", "C15_args_newline_refuted", "C15_func_status", "C15_sete_flat", "C15_sete_calls_instances",
-          "C15_sete_source_refuted",
-          "C15_sete_nested_refuted", "C15_full", "C15_refuted"]
+PINNED = ["C15_args", "C15_args_newline_refuted", "C15_func_status", "C15_sete_flat", "C15_sete", "C15_sete_stops", "C15_sete_calls_instances",
+          "C15_full", "C15_refuted"]
 TRUSTED = [
-    "Coq 8.16.1 kernel (coqc; coqchk in thorough); vm_compute in Example witnesses and in C15_sete_nested_refuted",
+    "Coq 8.16.1 kernel (coqc; coqchk in thorough); vm_compute in Example witnesses and in the regression Examples",
     "hand transcription of is_args_in_token / expand_args_for_single_token / expand_args_in_tokens, of the function "
     "extraction loop of run_script and of the status rules (coq/theories/Model/Args.v); the two regexes are modelled as "
     "hand-written first-match functions; tied by L1 (positional parameters) and L2 (function table, statuses)",
@@ -184,8 +183,7 @@ def gen_l2(ctx, hp, workdir_token):
             text = "set -e\nfor j in 1\nif %s\n%s\n%s\nfi\ndone\n%s\n" % (H(0, "c"), H(2, "bad"), body_after, H(0, "after-block"))
             good = [["@x0", "c"], ["@x2", "bad"]]
         bad = good + [["@x0", "after-block"]]
-        cases.append(dict(files={"main.sh": text}, main="main.sh", args=[], expect=(good, 2),
-                          known=("sete-nested-body", (bad, 0)), tag="sete-" + kind))
+        cases.append(dict(files={"main.sh": text}, main="main.sh", args=[], expect=(good, 2), known=None, tag="sete-" + kind))
     return cases
 
 
@@ -452,6 +450,46 @@ def run(ctx, res):
                             stderr=err[-300:], failing_input=True,
                             note="set -e / function call / source: the script does not end at the first failing command with "
                                  "its status (or runs a different command sequence)")
+        # ---------------- L2c: set -e in effect over random block-structured scripts (C15_sete):
+        # the ASTs of C14's generator, `set -e` as first line; reference = extracted sem_block with e = true,
+        # and the transcribed interpreter (run_lines with exit_on_error on) on the model's own parse
+        import c14 as K
+        seqh = os.path.join(ctx.helpers, "seq")
+        asts = K.gen_asts(ctx, hp, seqh, 600 if ctx.thorough else 100)
+        m_ast = C.run_model(ctx.model["C14"], C.write_cases("c15_e_ast.txt", [C.case("ast", a) for a in asts]))
+        etexts = [C.dec(l[len("wf=1 text=\""):].split("\" tree=", 1)[0]) for l in m_ast]
+        m_seme = C.run_model(ctx.model["C14"], C.write_cases("c15_e_sem.txt", [C.case("seme", a, "60") for a in asts]))
+        m_rune = C.run_model(ctx.model["C14"], C.write_cases("c15_e_run.txt", [C.case("rune", t, "60") for t in etexts]))
+
+        def one_e(ix):
+            d = os.path.join(work, "e%d" % ix)
+            os.makedirs(d)
+            r_ = K.run_script(ctx.cicada, "set -e\n" + etexts[ix], d)
+            shutil.rmtree(d, ignore_errors=True)
+            return r_
+        with ThreadPoolExecutor(max_workers=C.NCPU) as ex:
+            eouts = list(ex.map(one_e, range(len(asts))))
+        res.count("L2c_sete_nested_runs", len(asts))
+        nviol = 0
+        for ix, (rc, log, out, err) in enumerate(eouts):
+            exp = K.expected_of(m_seme[ix])
+            if exp is None:
+                raise C.Infra("sem_block (e = true) gave no outcome: %s" % m_seme[ix])
+            if m_rune[ix] != m_seme[ix]:
+                nviol += 1
+                if nviol <= 3:
+                    res.violate(kind="model-self-check", layer="L2c", ast=asts[ix], sem=m_seme[ix], run=m_rune[ix], failing_input=False,
+                                note="transcribed interpreter with exit_on_error on differs from sem_block with e = true")
+            elog, erc = exp
+            res.nontrivial("l2c:" + ";".join(x.split("/")[-1] for x in elog)[:200])
+            if (log, rc) != (elog, erc):
+                nviol += 1
+                if nviol <= 3:
+                    res.violate(kind="oracle", layer="L2c", entry="script", ast=asts[ix], input="set -e\n" + etexts[ix],
+                                expected="trace=%r status=%r" % (elog, erc), observed="trace=%r status=%r" % (log, rc),
+                                stderr=err[-300:], failing_input=True,
+                                note="with set -e the script does not end at the first failing command (at any nesting depth) "
+                                     "with its status")
         c, rc, log, err = outs[0]
         res.sample({"layer": "L2", "tag": c["tag"], "script": c["files"][c["main"]], "args": c["args"],
                     "reference": repr(c["expect"]), "impl": "trace=%r status=%r" % (log, rc)})
